@@ -656,6 +656,16 @@ def c11(run):
             if json.loads(l)["cons"] == "collect":
                 f.write(l)
     _iterdsl_programs(run, coll3, "C11-collect-d3").execute()
+    # a source of 260 items
+    dsll, colll = vec("C11-IterDsl-long.ndjson"), vec("C11-IterDsl-collect-long.ndjson")
+    if os.path.exists(dsll):
+        os.remove(dsll)
+    run.mc("MC_IterDsl", "IterDsl.long1.cfg", env={"OUT": dsll}, heap="8g", timeout=3000)
+    with open(colll, "w") as f:
+        for l in open(dsll):
+            if json.loads(l)["cons"] == "collect":
+                f.write(l)
+    _iterdsl_programs(run, colll, "C11-collect-long").execute()
     run.assumptions += [BOUNDED, "closure exits are generated from a fixed template (exit statement at a chosen "
                         "element); a 3 s timeout stands for non-termination"]
 
@@ -765,6 +775,12 @@ def c10(run):
     _iterdsl_programs(run, out2, "C10-d2", alt_sources=True).execute()
     d3 = _iterdsl_programs(run, out3, "C10-d3", limit=1200 if q else None, seed=run.seed)
     d3.execute()
+    # one source of 260 items (positions and counts beyond 255): every chain of depth <= 1 (thorough: <= 2)
+    outl = vec("C10-IterDsl-long.ndjson")
+    if os.path.exists(outl):
+        os.remove(outl)
+    run.mc("MC_IterDsl", "IterDsl.long1.cfg" if q else "IterDsl.long2.cfg", env={"OUT": outl}, heap="8g", timeout=3000)
+    _iterdsl_programs(run, outl, "C10-long").execute()
     run.assumptions += [BOUNDED, STD_GUARD + " (skipped on the two documented exceptions and on the known shape)",
                         "closures come from a fixed pure library acting on an injective scalarisation of the item",
                         "how often upstream closures run is not compared (the property speaks of produced values)"]
